@@ -842,7 +842,7 @@ func text(src []byte, fset *token.FileSet, n ast.Node) string {
 func planCall(fset *token.FileSet, srcOf map[*ast.File][]byte, h *helper, cs *callSite, uid int) ([]edit, ast.Stmt, map[string]string, string) {
 	pk := cs.pk
 	hd, hobj, hfile := h.decl, h.obj, h.file
-	info := pk.TypesInfo   // the caller's view
+	info := pk.TypesInfo    // the caller's view
 	hinfo := h.pk.TypesInfo // the helper's own package
 	cross := h.pk.Types.Path() != pk.Types.Path()
 	csrc, hsrc := srcOf[cs.file], srcOf[hfile]
